@@ -17,7 +17,7 @@ ENTRY = ['plot', 'plot_boundary', 'plot_axis', 'B_fieldline', 'B_contour', 'flux
          'calculate_shear', 'calculate_grad_grad_B_tensor', 'min_R0_penalty']
 # relative frequency in random sequences (slow 3-D plotting less often)
 WEIGHT = dict(plot=1.5, plot_boundary=0.7, flux_tube=0.5, get_boundary=0.7, Frenet_to_cylindrical=0.7, to_vmec=1.0)
-NEEDS = dict(calculate_shear=('r3',), calculate_grad_grad_B_tensor=('r2', 'r3'), grad_grad_B_tensor_cylindrical=('r2', 'r3'),
+NEEDS = dict(calculate_shear=('r2', 'r3'), calculate_grad_grad_B_tensor=('r2', 'r3'), grad_grad_B_tensor_cylindrical=('r2', 'r3'),
              grad_grad_B_tensor_cartesian=('r2', 'r3'))
 TMP = None
 
@@ -469,7 +469,8 @@ def main():
         try:
             for cfgf in (dict(rc=[1.0, 0.08], zs=[0.0, 0.07], rs=[0.0, 0.006], zc=[0.0, 0.009], nfp=2, etabar=0.9, sigma0=0.15, order='r3', B2c=0.2, B2s=-0.15, B0=1.2, I2=0.3,
                               p2=-40000.0, sG=1, spsi=1, nphi=15),
-                         dict(rc=[1.0, 0.09], zs=[0.0, -0.09], nfp=2, etabar=0.95, order='r3', B2c=-0.7, p2=-600000.0, I2=0.3, nphi=15)):
+                         dict(rc=[1.0, 0.09], zs=[0.0, -0.09], nfp=2, etabar=0.95, order='r3', B2c=-0.7, p2=-600000.0, I2=0.3, nphi=15),
+                         dict(rc=[1.0, 0.09], zs=[0.0, -0.09], nfp=2, etabar=0.95, order='r2', B2c=-0.7, p2=-600000.0, I2=0.3, nphi=15)):     # (the shear diagnostic also runs on an order-r2 object)
                 srcf = dict(cfg=cfgf)
                 qf = build_src(srcf)
                 seqf = [dict(m='calculate_shear'), dict(m='calculate_shear'), dict(m='calculate_grad_grad_B_tensor', kw=dict(two_ways=True)), dict(m='calculate_shear'),
